@@ -150,6 +150,11 @@ pub trait Est: Sized + Clone {
     fn mk_new(p: &Params) -> Self;
     fn mk_default() -> Self;
     fn add1(&mut self, v: &[f64]);
+    /// `add` reached through the `Estimate` trait (as code generic over `E: Estimate` reaches it) rather than by method
+    /// syntax on the concrete type, which would prefer an inherent method of the same name.
+    fn add1_trait(&mut self, _v: &[f64]) -> bool {
+        false
+    }
     fn from_val(_v: &[f64]) -> Option<Self> {
         None
     }
@@ -338,6 +343,15 @@ macro_rules! single_common {
     };
 }
 
+macro_rules! trait_add {
+    ($t:ty) => {
+        fn add1_trait(&mut self, v: &[f64]) -> bool {
+            <$t as average::Estimate>::add(self, v[0]);
+            true
+        }
+    };
+}
+
 macro_rules! extend_fns {
     () => {
         fn ext_val(&mut self, v: &[f64]) -> bool {
@@ -362,6 +376,7 @@ macro_rules! extend_fns {
 
 impl Est for average::Mean {
     single_common!(average::Mean);
+    trait_add!(average::Mean);
     extend_fns!();
     fn obs(&self, o: &mut Obs) {
         o.u("len", || self.len());
@@ -373,6 +388,7 @@ impl Est for average::Mean {
 
 impl Est for average::Variance {
     single_common!(average::Variance);
+    trait_add!(average::Variance);
     extend_fns!();
     fn obs(&self, o: &mut Obs) {
         o.u("len", || self.len());
@@ -388,6 +404,7 @@ impl Est for average::Variance {
 
 impl Est for average::Skewness {
     single_common!(average::Skewness);
+    trait_add!(average::Skewness);
     extend_fns!();
     fn obs(&self, o: &mut Obs) {
         o.u("len", || self.len());
@@ -403,6 +420,7 @@ impl Est for average::Skewness {
 
 impl Est for average::Kurtosis {
     single_common!(average::Kurtosis);
+    trait_add!(average::Kurtosis);
     extend_fns!();
     fn obs(&self, o: &mut Obs) {
         o.u("len", || self.len());
@@ -448,6 +466,7 @@ moments_est!(M10, 10usize);
 
 impl Est for average::Min {
     single_common!(average::Min);
+    trait_add!(average::Min);
     extend_fns!();
     fn from_value_ctor(v: f64) -> Option<Self> {
         Some(average::Min::from_value(v))
@@ -460,6 +479,7 @@ impl Est for average::Min {
 
 impl Est for average::Max {
     single_common!(average::Max);
+    trait_add!(average::Max);
     // Max has no Extend impl in the crate.
     fn from_value_ctor(v: f64) -> Option<Self> {
         Some(average::Max::from_value(v))
@@ -479,6 +499,10 @@ impl Est for average::Quantile {
     }
     fn add1(&mut self, v: &[f64]) {
         self.add(v[0]);
+    }
+    fn add1_trait(&mut self, v: &[f64]) -> bool {
+        <average::Quantile as average::Estimate>::add(self, v[0]);
+        true
     }
     serde_fns!();
     fn obs(&self, o: &mut Obs) {
